@@ -99,13 +99,15 @@ def cevent(e):
 
 
 def to_coq(r):
-    return '(%s, %s, %s, %s, (%s, %s, %s, %s, %s, %s))' % (
+    endk = {'finished': 0, 'deadlock': 1}.get(r['end'], 2)
+    return ('(%s, %s, (%s : list (list call)), (%s : list (nat * bool)), ((%s : list event), (%s : list nat), '
+            '(%s : list (list Z)), (%s : list bool), (%s : list Z), (%s : list Z), %d))') % (
         cbool(r['lockrec']), cz(r['k']),
         clist(r['scripts'], lambda sc: clist(sc, ccall)),
         clist(r['sched'], lambda s: '(%d%%nat, %s)' % (s[0], cbool(s[1]))),
         clist(r['events'], cevent), clist(r['callidx'], lambda k: '%d%%nat' % k),
         clist(r['results'], lambda rs: clist(rs, cz)), clist(r['fins'], cbool),
-        clist(r['vals'], cz), clist(r['pend'], cz))
+        clist(r['vals'], cz), clist(r['pend'], cz), endk)
 
 
 def rec_key(r):
